@@ -6,6 +6,7 @@ import (
 	"fmt"
 	"os"
 	"path/filepath"
+	"runtime/debug"
 	"sort"
 	"strings"
 	"testing"
@@ -23,15 +24,16 @@ import (
 // Doc is one corpus document: an example source shipped with the repository,
 // loaded and calculated by the tree under test.
 type Doc struct {
-	Name   string // path without extension, relative to the repo
-	Src    []byte // the source as JSON (document or envelope)
-	IsEnv  bool   // source is an envelope
-	Env    []byte // calculated + validated envelope, compact JSON, fixed head uuid
-	Schema string // document schema id
-	Kind   string // last path element of the schema: invoice, order, ...
-	Regime string
-	Addons []string
-	Err    string // non-empty if the tree under test could not build it
+	Name       string // path without extension, relative to the repo
+	Src        []byte // the source as JSON (document or envelope)
+	IsEnv      bool   // source is an envelope
+	Env        []byte // calculated + validated envelope, compact JSON, fixed head uuid
+	Schema     string // document schema id
+	Kind       string // last path element of the schema: invoice, order, ...
+	Regime     string
+	Addons     []string
+	Err        string // non-empty if the tree under test could not build it
+	PanicStack string // set when building it panicked
 }
 
 // Corpus is the set of documents every world draws from.
@@ -174,6 +176,7 @@ func buildDoc(d *Doc, i int) {
 	defer func() {
 		if r := recover(); r != nil {
 			d.Err = fmt.Sprintf("panic: %v", r)
+			d.PanicStack = string(debug.Stack())
 		}
 	}()
 	var env *gobl.Envelope
